@@ -9,7 +9,7 @@ Exit codes: 0 property held on everything explored; 1 violation (VIOLATION line 
 import json, os, subprocess, sys, time, re, hashlib, shutil, random
 
 ROOT = os.path.dirname(os.path.dirname(os.path.abspath(__file__)))
-SPEC = os.path.join(ROOT, "spec")
+SPEC = os.environ.get("VERIF_DEV_SPEC", os.path.join(ROOT, "spec"))       # development aid only, like the other VERIF_DEV_* overrides
 # development aid only (never used by the registered commands): a scratch copy of the harness that points at a scratch clone of
 # /repo, so that checks can be developed while a seeded change is applied to /repo itself
 HARNESS = os.environ.get("VERIF_DEV_HARNESS", os.path.join(ROOT, "harness"))
@@ -344,10 +344,11 @@ GEN_FAMILIES = {
     "G1c": ("MC_Gen_G1c.cfg", None, None),
     "G1d": ("MC_Gen_G1d.cfg", 500, None),
     "G1e": ("MC_Gen_G1e.cfg", 300, None),
+    "G1f": ("MC_Gen_G1f.cfg", None, None),
     "G2p_2": ("MC_Gen_G2p_2.cfg", 900, None),
     "G2p_3s": ("MC_Gen_G2p_3s.cfg", 400, 0),
     "G2p_3": ("MC_Gen_G2p_3.cfg", 0, 8000),
-    "G2s": ("MC_Gen_G2s.cfg", 600, None),
+    "G2s": ("MC_Gen_G2s.cfg", None, None),      # all shape pairs: each pair is the only witness of one comparison arm
     "G7": ("MC_Gen_G7.cfg", None, None),
     "G8": ("MC_Gen_G8.cfg", 220, None),
     "G8b": ("MC_Gen_G8b.cfg", None, None),
@@ -372,7 +373,7 @@ def gen_pipeline(tier, seed):
     cases, mc = [], {"generated": 0, "distinct": 0}
     fam_counts, design = {}, {"c01_false": 0, "c02_false": 0, "c03_false": 0, "teq_unsound": 0}
     procs = []
-    fams = [f for f, (cfg, q, t) in GEN_FAMILIES.items() if (q if tier == "quick" else t) != 0]
+    fams = [f for f, (cfg, q, t) in GEN_FAMILIES.items() if (q if tier == "quick" else t) != 0 and os.path.exists(os.path.join(SPEC, "mc", cfg))]
     # MC_Gen runs: all families at once (quick) / four at a time (thorough), a few workers each
     step = len(fams) if tier == "quick" else 4
     for i in range(0, len(fams), step):
@@ -1239,7 +1240,8 @@ def check_c15(tier, seed):
     wd = workdir("C15")
     cfg = os.path.join(SPEC, "mc", "MC_C15.cfg" if tier == "quick" else "MC_C15_thorough.cfg")
     out = tlc_run(os.path.join(SPEC, "mc", "MC_C15.tla"), cfg, os.path.join(wd, "mc.out"),
-                  os.path.join(wd, "md"), workers=8, extra=("-coverage", "1"), timeout=3000, xmx="16g")
+                  os.path.join(wd, "md"), workers=8, extra=("-coverage", "1") + (() if tier == "quick" else ("-maxSetSize", "20000000")),
+                  timeout=3000, xmx="16g" if tier == "quick" else "24g")
     res.add_mc(tlc_summary(out))
     res.extra["mc_actions"] = {k: v[1] for k, v in coverage_actions(out).items() if k.endswith("_")}
     if any(v == 0 for v in res.extra["mc_actions"].values()) or len(res.extra["mc_actions"]) < 8:
